@@ -35,6 +35,7 @@ type Op struct {
 	S string `json:"s,omitempty"`
 	T string `json:"t,omitempty"`
 	L []int  `json:"l,omitempty"`
+	N int    `json:"n,omitempty"`
 }
 
 type EcoPool struct {
